@@ -4,11 +4,10 @@ EVALSHA → NOSCRIPT → EVAL fallback of go-redis' Script.Run, PingCtx), compos
 and the end-to-end theorems per clause of the property (call site → wrapper → script path → script → store).
 
   script_run_error_executes_nothing, script_run_at_most_once, script_run_trips
-  take_via_is_take, store_error_never_grants_on_any_path, period_refines_spec_via, period_life_then_new_life
+  take_via_is_take, store_error_never_grants_on_any_path, period_refines_spec_via
   reserve_grants_only_on_one, reserve_lua_bool, reserveN_follows_reply_table, token_store_error_goes_local
   ping_true_only_on_pong
   periodScriptZ_is_periodScript (arguments nothing validates: limit ≤ 0, window ≤ 0)
-  token_keys_independent, period_keys_independent
 -/
 import GoZero.C03.ScriptRun
 import GoZero.C03.LuaSem
